@@ -17,6 +17,7 @@ mod mapmatch;
 mod interp;
 mod powertrain;
 mod ksp;
+mod output;
 
 fn main() {
     // panics of the code under test are recorded as events by util::guarded; keep stderr quiet
@@ -45,6 +46,7 @@ fn main() {
         "interp" => interp::main(rest),
         "powertrain" => powertrain::main(rest),
         "ksp" => ksp::main(rest),
+        "output" => output::main(rest),
         "ksp-child" => ksp::child(&rest[0]),
         "robust-child" => robust::child(&rest[0]),
         other => {
